@@ -159,10 +159,10 @@ def check(prop, tier, seed, verbose=True):
             print(msg, flush=True)
 
     # size the thorough tier by total wall time: the per-shard CPU budgets are capped so that the whole run stays
-    # within about THOROUGH_MIN minutes on NPROC cores (shards that finish early leave room; the rest is 'not confirmed')
+    # within about VT_THOROUGH_MIN (default 12) minutes on NPROC cores (shards that finish early leave room; the rest is 'not confirmed')
     n_shards = sum(len(c.shards) for c in plan)
     if tier == 'thorough' and n_shards:
-        cap = max(60.0, float(os.environ.get('VT_THOROUGH_MIN', '25')) * 60.0 * NPROC / n_shards)
+        cap = max(60.0, float(os.environ.get('VT_THOROUGH_MIN', '12')) * 60.0 * NPROC / n_shards)
         for c in plan:
             c.budget = min(c.budget, cap)
     say('== %s %s tier=%s seed=%d jobs=%d' % (prop, getattr(mod, 'TITLE', ''), tier, seed, NPROC))
